@@ -32,6 +32,16 @@ import (
 //                       canonicalised by the key-sorting codecs); integers that do not fit the field's width are refused;
 //                       every repetition of a binding call succeeds with the same result
 //   (D) correspondence: the width rule and the registry history against the Lean model (`bind.width`, `bind.history`).
+//
+//   Second part (c19BindSection): the quantifier "all Go types in the shape vocabulary, all values".  For random schemas
+//   (core.GenSchema) a random compatible Go type is built with reflect (core.UserBindEngine with every integer kind), random
+//   Go values of it are made by reflection (nil / non-nil pointers, nil / empty / non-empty slices, ordered maps in random key
+//   order, boundary integers of each width), and
+//   (O) Wrap(value) read through the node API == an independent reflection walk (core.WalkGo); Unwrap(build(content)) is the
+//       normalised value (core.NormGo; reflect.DeepEqual where it is meaningful, the token form always); Marshal → Unmarshal
+//       through dag-cbor and dag-json into a fresh value gives the normalised value up to ordered-map key order; a typed value
+//       built into the Go type reads back exactly as assembled, or is refused exactly when an integer does not fit;
+//   (D) `gobind.view` / `gobind.assign` of the Lean model (Model/GoBind.lean) answer what the implementation does, case by case.
 
 func init() {
 	core.Register(&core.Check{ID: "C19", Run: runC19, Replay: replayC19})
@@ -196,9 +206,12 @@ func stripAbsent(v core.Val) core.Val {
 }
 
 func runC19(c *core.Ctx) error {
-	c.Rule = "random values of a catalogue struct covering bool / int64 / int8 / uint8 / uint64 / float64 / string / []byte fields, a slice, optional and nullable pointers, a nested tuple struct, an ordered-map struct, a keyed-union struct and a link; Wrap, build+Unwrap, Marshal/Unmarshal through dag-cbor and dag-json; integers at and beyond each field's width; histories of repeated and interleaved Wrap/Prototype calls with explicit and with inferred schemas (four inferable Go types sharing member types) against the registry model; non-trivial = value with a non-empty list or ordered map; distinct by value"
-	c.Explanation = "theorems on the binding model: width_guard (an integer is stored iff it fits the field's width — the ideal; the code's wrap-around is the named deviation with its witness), binding_pure / binding_pure_history for every history of explicit and inferred bindings (the memoising registry), binding_inferred_twice_was_a_panic"
-	c.Assumptions = []string{"Go values are compared as data: nil and empty slices/maps identified, ordered-map key order canonicalised after a key-sorting codec", "custom converters are user code and not registered", "Go values that are not inhabitants of the schema (a union struct with no or several members set, Keys/Values out of step) are outside the quantifier"}
+	c.Rule = "(a) random values of a catalogue struct covering bool / int64 / int8 / uint8 / uint64 / float64 / string / []byte fields, a slice, optional and nullable pointers, a nested tuple struct, an ordered-map struct, a keyed-union struct and a link; Wrap, build+Unwrap, Marshal/Unmarshal through dag-cbor and dag-json; integers at and beyond each field's width; histories of repeated and interleaved Wrap/Prototype calls with explicit and with inferred schemas (four inferable Go types sharing member types) against the registry model; non-trivial = value with a non-empty list or ordered map; distinct by value.  (b) random schemas (core.GenSchema, plus integer-heavy structs), for each a random compatible Go type built with reflect (every integer kind int8…int64/int/uint8…uint64/uint for Int and for int-represented enums, string for enums, cid.Cid / cidlink.Link / datamodel.Link, datamodel.Node, slices, pointers for optional / nullable / both, ordered-map structs, union structs), three random Go values of it by reflection (nil and non-nil pointers, nil / empty / non-empty slices, random key orders, boundary integers of each width, unsigned values above MaxInt64), two random typed values built into it (integers beyond the widths, struct fields in random order), one non-inhabitant in every fourth type; non-trivial = more than three nodes; distinct by case line"
+	c.Explanation = "theorems on the binding model: width_guard (an integer is stored iff it fits the field's width — the ideal; the code's wrap-around is the named deviation with its witness), binding_pure / binding_pure_history for every history of explicit and inferred bindings (the memoising registry), binding_inferred_twice_was_a_panic; on the Wrap/Unwrap model (Model/GoBind.lean, tied to the implementation by `gobind.view` / `gobind.assign` / `gobind.wt` / `gobind.compatible` on every case): view_assign (wrap of what was built shows exactly the normal form of what was assembled), unwrap_well_typed, assign_view (Unwrap∘build of a wrapped value's content is the value up to GoVal.norm), view_total, view_conforms / view_normal, assign_refuses_iff (refused iff not conforming or an integer - an enum member's representation int included - does not fit), marshal_unmarshal (composition with C08 ofRepr_repr_partial), all at full strength under t.wf and compatible only (each shown to be needed: view_assign_needs_wf, assign_refuses_iff_needs_wf, assign_refuses_iff_needs_compatible); the repaired deviations as theorems of the repaired behaviour (enum_300_into_int8_is_refused, uint_above_int64_reads_back)"
+	c.Assumptions = []string{"Go values are compared as data: nil and empty slices/maps identified, ordered-map key order canonicalised after a key-sorting codec", "custom converters are user code and not registered", "Go values that are not inhabitants of the schema (a union struct with no or several members set, Keys/Values out of step) are outside the quantifier",
+		"the shape vocabulary is the one the property names: pointers for optional and nullable (verifyCompatibility also accepts nilable non-pointer types there: known finding C19/nilable-slot-empty-list-becomes-absent), float64 (a float32 field rounds silently), Go field names = strings.Title of the schema names",
+		"[]byte values are compared as data (nil and empty identified: the binding stores the slice it is handed); datamodel.Node values by their content",
+		"values whose representation is ambiguous for a string strategy (a stringjoin field holding the delimiter) are not generated (C08 unambig); floats are non-integral (C04's known finding on integral floats in dag-json)"}
 	recT := c19TS.TypeByName("Rec")
 	// --- known-finding witnesses ---------------------------------------------------------------
 	{
@@ -219,6 +232,9 @@ func runC19(c *core.Ctx) error {
 		c.KnownWitness("C19/narrow-int-overflow-stored-silently", err == nil && !panicked, "300 assigned to an int8 field is accepted and stored as "+stored)
 	}
 	if err := c19InferHistories(c); err != nil {
+		return err
+	}
+	if err := c19BindSection(c); err != nil {
 		return err
 	}
 	// --- the main loop -------------------------------------------------------------------------
@@ -360,9 +376,11 @@ func runC19(c *core.Ctx) error {
 }
 
 func replayC19(c *core.Ctx, rp core.Replay) error {
+	if strings.HasPrefix(rp.Case, "c19.bind ") || strings.HasPrefix(rp.Case, "c19.build ") {
+		return c19BindReplay(c, rp.Case)
+	}
 	return fmt.Errorf("C19 cases replay by seed: VERIF_SEED=%d ./vcheck C19 %s (case: %s)", rp.Seed, rp.Tier, rp.Case)
 }
-
 
 // ---------------------------------------------------------------------------------------------
 // histories of bindings with inferred schemas
@@ -479,4 +497,650 @@ func c19InferHistories(c *core.Ctx) error {
 		}
 	}
 	return nil
+}
+
+// ---------------------------------------------------------------------------------------------
+// random Go types and values against the binding model (Model/GoBind.lean)
+//
+// case lines (self-contained, replayable):
+//   c19.bind  <go type tokens> SCHEMA <schema tokens> VAL <go value tokens>      a Go value: Wrap, build+Unwrap, Marshal/Unmarshal
+//   c19.build <go type tokens> SCHEMA <schema tokens> VAL <typed value term>     a typed value: build into the Go type, Unwrap, Wrap again
+
+type c19Bind struct {
+	T     *core.SType
+	G     *core.GTy
+	RT    reflect.Type
+	ST    schema.Type
+	Proto schema.TypedPrototype
+	Head  string // "<go type tokens> SCHEMA <schema tokens>"
+}
+
+var c19SchemaCfg = core.SchemaCfg{MaxDepth: 3, NullableDispatchUnion: 12, KindedIntEnum: 10, TupleLooseOptional: 0, UnionAnyMember: 0, EnumEmptyRename: 3}
+
+// newC19Bind declares the schema and binds the Go type; g == nil: the Go type is chosen by core.UserBindEngine (all integer kinds).
+func newC19Bind(t *core.SType, g *core.GTy) (b *c19Bind, err error) {
+	ts, err := core.BuildTypeSystem(t)
+	if err != nil {
+		return nil, err
+	}
+	st := ts.TypeByName(t.Name)
+	var rt reflect.Type
+	if g == nil {
+		eng := core.NewUserBindEngine(ts, t.Tokens())
+		eng.AllIntKinds = true
+		rt = eng.GoType(st)
+		if g, err = core.GTyOf(rt, t, false); err != nil {
+			return nil, err
+		}
+		if g.Reflect() != rt {
+			return nil, fmt.Errorf("go type %s does not rebuild from its tokens %s", rt, g.Tokens())
+		}
+	} else {
+		rt = g.Reflect()
+	}
+	defer func() {
+		if r := recover(); r != nil {
+			err = fmt.Errorf("bindnode.Prototype(%s, %s) panicked: %v", rt, t.Tokens(), r)
+		}
+	}()
+	proto := bindnode.Prototype(reflect.New(rt).Interface(), st)
+	return &c19Bind{T: t, G: g, RT: rt, ST: st, Proto: proto, Head: g.Tokens() + " SCHEMA " + t.Tokens()}, nil
+}
+
+// pending correspondence lines of a batch
+type c19Pending struct {
+	lines, impls, cases, sigs []string
+}
+
+func (p *c19Pending) add(line, impl, caseID, sig string) {
+	p.lines = append(p.lines, line)
+	p.impls = append(p.impls, impl)
+	p.cases = append(p.cases, caseID)
+	p.sigs = append(p.sigs, sig)
+}
+
+func (p *c19Pending) flush(c *core.Ctx) error {
+	outs, err := core.RunDriver(p.lines)
+	if err != nil {
+		return err
+	}
+	for i := range p.lines {
+		c.Trace(1)
+		if outs[i] != p.impls[i] {
+			c.Fail(p.sigs[i], core.Replay{Kind: "correspondence", Case: p.cases[i], Impl: p.impls[i], Model: outs[i], Detail: "model line: " + truncateStr(p.lines[i], 300)})
+		}
+	}
+	*p = c19Pending{}
+	return nil
+}
+
+// c19HasBigUnsigned: the typed value holds an integer above MaxInt64 in a slot bound to Go kind `only` ("" = any unsigned
+// kind; "kinded" = any unsigned kind, directly as the member of a kinded union).
+func c19HasBigUnsigned(g *core.GTy, t *core.SType, nul bool, v core.Val, only string) bool {
+	return c19BigUnsigned(g, t, nul, v, only, false)
+}
+
+func c19BigUnsigned(g *core.GTy, t *core.SType, nul bool, v core.Val, only string, underKinded bool) bool {
+	if nul {
+		if v.K == 'n' {
+			return false
+		}
+		g = g.Elem
+	}
+	switch t.K {
+	case "int":
+		_, inInt64 := v.Int64()
+		big := v.K == 'i' && !inInt64 && !v.Neg
+		switch only {
+		case "":
+			return big
+		case "kinded":
+			return big && underKinded
+		}
+		return big && g.K == only
+	case "list":
+		for _, x := range v.L {
+			if c19BigUnsigned(g.Elem, t.Elem, t.Nullable, x, only, false) {
+				return true
+			}
+		}
+	case "map":
+		for _, e := range v.M {
+			if c19BigUnsigned(g.Elem, t.Elem, t.Nullable, e.V, only, false) {
+				return true
+			}
+		}
+	case "struct":
+		for i, f := range t.Fields {
+			if i >= len(v.M) || v.M[i].V.K == 'a' {
+				continue
+			}
+			fg := g.Fields[i].T
+			if f.Opt {
+				fg = fg.Elem
+			}
+			if c19BigUnsigned(fg, f.T, f.Nullable, v.M[i].V, only, false) {
+				return true
+			}
+		}
+	case "union":
+		for i, m := range t.Members {
+			if len(v.M) == 1 && string(v.M[0].K) == m.T.Name {
+				return c19BigUnsigned(g.Fields[i].T.Elem, m.T, false, v.M[0].V, only, t.URepr == "kinded")
+			}
+		}
+	}
+	return false
+}
+
+// c19IntsFit: every integer of the canonical typed value fits the Go kind it is bound to (the oracle for refusals; written
+// against the token forms only).
+func c19IntsFit(g *core.GTy, t *core.SType, nul bool, v core.Val, skipEnums bool) bool {
+	if nul {
+		if v.K == 'n' {
+			return true
+		}
+		g = g.Elem
+	}
+	if skipEnums && t.K == "enum" {
+		return true
+	}
+	switch t.K {
+	case "int":
+		bits, signed, _ := core.IntBits(g.K)
+		if signed {
+			i, ok := v.Int64()
+			return ok && (bits == 64 || (i >= -(1<<(bits-1)) && i < 1<<(bits-1)))
+		}
+		return !v.Neg && (bits == 64 || v.Mag < 1<<bits)
+	case "enum":
+		if g.K == "string" {
+			return true
+		}
+		bits, signed, _ := core.IntBits(g.K)
+		for _, e := range t.Enum {
+			if e.Name == string(v.S) {
+				if signed {
+					return bits == 64 || (e.RInt >= -(1<<(bits-1)) && e.RInt < 1<<(bits-1))
+				}
+				return e.RInt >= 0 && (bits == 64 || e.RInt < 1<<bits)
+			}
+		}
+	case "list":
+		for _, x := range v.L {
+			if !c19IntsFit(g.Elem, t.Elem, t.Nullable, x, skipEnums) {
+				return false
+			}
+		}
+	case "map":
+		for _, e := range v.M {
+			if !c19IntsFit(g.Elem, t.Elem, t.Nullable, e.V, skipEnums) {
+				return false
+			}
+		}
+	case "struct":
+		for i, f := range t.Fields {
+			if i >= len(v.M) || v.M[i].V.K == 'a' {
+				continue
+			}
+			fg := g.Fields[i].T
+			if f.Opt {
+				fg = fg.Elem
+			}
+			if !c19IntsFit(fg, f.T, f.Nullable, v.M[i].V, skipEnums) {
+				return false
+			}
+		}
+	case "union":
+		for i, m := range t.Members {
+			if len(v.M) == 1 && string(v.M[0].K) == m.T.Name {
+				return c19IntsFit(g.Fields[i].T.Elem, m.T, false, v.M[0].V, skipEnums)
+			}
+		}
+	}
+	return true
+}
+
+// c19ShuffleStructs: the type-level builder takes struct fields in any order.
+func c19ShuffleStructs(t *core.SType, v core.Val, r *core.Rand) core.Val {
+	switch {
+	case t.K == "list" && v.K == '[':
+		out := core.Val{K: '['}
+		for _, x := range v.L {
+			out.L = append(out.L, c19ShuffleStructs(t.Elem, x, r))
+		}
+		return out
+	case t.K == "map" && v.K == '{':
+		out := core.Val{K: '{'}
+		for _, e := range v.M {
+			out.M = append(out.M, core.KV{K: e.K, V: c19ShuffleStructs(t.Elem, e.V, r)})
+		}
+		return out
+	case t.K == "struct" && v.K == '{' && len(v.M) == len(t.Fields):
+		out := core.Val{K: '{'}
+		for _, i := range r.Perm(len(v.M)) {
+			out.M = append(out.M, core.KV{K: v.M[i].K, V: c19ShuffleStructs(t.Fields[i].T, v.M[i].V, r)})
+		}
+		return out
+	case t.K == "union" && v.K == '{' && len(v.M) == 1:
+		for _, m := range t.Members {
+			if m.T.Name == string(v.M[0].K) {
+				return core.Map(core.KV{K: v.M[0].K, V: c19ShuffleStructs(m.T, v.M[0].V, r)})
+			}
+		}
+	}
+	return v
+}
+
+// c19BuildUnwrap feeds the content into the type-level builder of the binding and unwraps: the Go value's tokens, or
+// "refused" / "panic(…)".
+func c19BuildUnwrap(b *c19Bind, content core.Val, r *core.Rand) (tokens string, got reflect.Value) {
+	nb := b.Proto.NewBuilder()
+	err, panicked, pv := core.Catch(func() error {
+		if err := core.Assemble(nb, content, r); err != nil {
+			return err
+		}
+		ptr := bindnode.Unwrap(nb.Build())
+		if ptr == nil {
+			return fmt.Errorf("Unwrap returned nil")
+		}
+		got = reflect.ValueOf(ptr).Elem()
+		if got.Type() != b.RT {
+			return fmt.Errorf("Unwrap returned a %s, bound was %s", got.Type(), b.RT)
+		}
+		tokens = core.GoValTokens(got, b.G, false)
+		return nil
+	})
+	if panicked {
+		return "panic(" + fmt.Sprint(pv) + ")", reflect.Value{}
+	}
+	if err != nil {
+		return "refused", reflect.Value{}
+	}
+	return tokens, got
+}
+
+var c19Codecs = []struct {
+	name string
+	enc  codec.Encoder
+	dec  codec.Decoder
+}{{"dag-cbor", dagcbor.Encode, dagcbor.Decode}, {"dag-json", dagjson.Encode, dagjson.Decode}}
+
+// c19CheckGoValue: everything the property says about one Go value pv (a pointer to a value of the bound type).
+func c19CheckGoValue(c *core.Ctx, b *c19Bind, pv reflect.Value, r *core.Rand, p *c19Pending) {
+	goTokens := core.GoValTokens(pv.Elem(), b.G, false)
+	caseID := "c19.bind " + b.Head + " VAL " + goTokens
+	want, werr := core.WalkGo(pv.Elem(), b.G, b.T, false)
+	if werr != nil {
+		// not an inhabitant of the schema type (the reflection walk fails): outside the quantifier.  The model must find it
+		// unreadable and ill-typed; what the implementation does with it (an error, a panic, or a garbage read such as the
+		// string "<invalid Value>" for a key without value) is only recorded.
+		c.Count(caseID, false)
+		got := "wrap-panic"
+		core.Catch(func() error { got = readView(bindnode.Wrap(pv.Interface(), b.ST)); return nil })
+		if strings.HasPrefix(got, "read-error(") || strings.HasPrefix(got, "read-panic(") || strings.HasPrefix(got, "wrap-panic") {
+			c.Dist("non-inhabitant:implementation-refuses-to-read")
+		} else {
+			c.Dist("non-inhabitant:implementation-reads-something")
+		}
+		p.add("gobind.view "+b.Head+" VAL "+goTokens, "unreadable", caseID, "C19/corr-view")
+		p.add("gobind.wt "+b.Head+" VAL "+goTokens, "false", caseID, "C19/corr-wt")
+		return
+	}
+	c.Count(caseID, want.Size() > 3)
+	bigAny := c19HasBigUnsigned(b.G, b.T, false, want, "")
+	bigKinded := c19HasBigUnsigned(b.G, b.T, false, want, "kinded")
+	// (O) wrap_faithful: the node API shows exactly the reflection walk
+	var node datamodel.Node
+	got := "wrap-panic"
+	_, panicked, ppv := core.Catch(func() error {
+		node = bindnode.Wrap(pv.Interface(), b.ST)
+		return nil
+	})
+	if panicked {
+		got = "wrap-panic(" + fmt.Sprint(ppv) + ")"
+	} else {
+		got = readView(node)
+	}
+	if got != want.Term() {
+		c.Fail("C19/wrap-not-faithful", core.Replay{Kind: "oracle", Case: caseID, Impl: got, Expected: want.Term(), Detail: "Wrap(value) read through the node API vs. a reflection walk of the Go value"})
+	}
+	// the value is a well-typed inhabitant for the model as well (the hypothesis of the theorems)
+	p.add("gobind.wt "+b.Head+" VAL "+goTokens, "true", caseID, "C19/corr-wt")
+	implView := got
+	if strings.HasPrefix(got, "read-error(") || strings.HasPrefix(got, "read-panic(") || strings.HasPrefix(got, "wrap-panic") {
+		implView = "unreadable"
+	}
+	p.add("gobind.view "+b.Head+" VAL "+goTokens, implView, caseID, "C19/corr-view")
+	// (O) unwrap_build: building the content and unwrapping gives the normalised value
+	norm := core.NormGo(pv.Elem(), b.G)
+	normTokens := core.GoValTokens(norm, b.G, false)
+	content := core.TypeInput(want)
+	var ar *core.Rand
+	if r != nil && r.Bool() {
+		ar = r
+		content = c19ShuffleStructs(b.T, content, r)
+	}
+	builtTokens, built := c19BuildUnwrap(b, content, ar)
+	if builtTokens != normTokens {
+		c.Fail("C19/unwrap-differs", core.Replay{Kind: "oracle", Case: caseID, Impl: builtTokens, Expected: normTokens, Detail: "Unwrap(build(content of the value)) vs. the normalised value"})
+	} else if b.G.DeepEqualUsable() && !reflect.DeepEqual(built.Interface(), norm.Interface()) {
+		c.Fail("C19/unwrap-differs", core.Replay{Kind: "oracle", Case: caseID, Impl: fmt.Sprintf("%#v", built.Interface()), Expected: fmt.Sprintf("%#v", norm.Interface()), Detail: "reflect.DeepEqual(Unwrap(build(content)), normalised value) is false although the token forms agree"})
+	}
+	p.add("gobind.assign "+b.Head+" VAL "+want.Term(), builtTokens, caseID, "C19/corr-assign")
+	// (O) marshal_unmarshal, per codec, into a fresh value
+	wantSorted := core.GoValTokens(norm, b.G, true)
+	for _, cd := range c19Codecs {
+		out := reflect.New(b.RT)
+		var enc []byte
+		err, panicked, ppv := core.Catch(func() error {
+			var err error
+			if enc, err = ipld.Marshal(cd.enc, pv.Interface(), b.ST); err != nil {
+				return fmt.Errorf("Marshal: %w", err)
+			}
+			if _, err = ipld.Unmarshal(enc, cd.dec, out.Interface(), b.ST); err != nil {
+				return fmt.Errorf("Unmarshal: %w", err)
+			}
+			return nil
+		})
+		sig := ""
+		rp := core.Replay{Kind: "oracle", Case: caseID, Expected: wantSorted, Detail: "Marshal → Unmarshal through " + cd.name + " into a fresh value"}
+		switch {
+		case err != nil || panicked:
+			sig, rp.Impl = "C19/marshal-roundtrip-fails", fmt.Sprint(err, ppv)
+		case core.GoValTokens(out.Elem(), b.G, true) != wantSorted:
+			sig, rp.Impl = "C19/marshal-roundtrip-differs", core.GoValTokens(out.Elem(), b.G, true)
+			rp.Detail += fmt.Sprintf(" (%d bytes: %x)", len(enc), truncateBytes(enc, 120))
+		}
+		if sig != "" {
+			switch {
+			case bigAny && cd.name == "dag-json":
+				sig = "C19/dagjson-unsigned-above-int64"
+			case bigKinded:
+				sig = "C19/kinded-union-unsigned-above-int64-marshal-fails"
+			}
+			c.Fail(sig, rp)
+		}
+		c.Dist("codec:" + cd.name)
+	}
+}
+
+// c19CheckTypedValue: a typed value (canonical: every field listed, absent explicit) is built into the Go type.
+func c19CheckTypedValue(c *core.Ctx, b *c19Bind, tl core.Val, r *core.Rand, p *c19Pending) {
+	caseID := "c19.build " + b.Head + " VAL " + tl.Term()
+	c.Count(caseID, tl.Size() > 3)
+	content := core.TypeInput(tl)
+	var ar *core.Rand
+	if r != nil && r.Bool() {
+		ar = r
+		content = c19ShuffleStructs(b.T, content, r)
+	}
+	builtTokens, built := c19BuildUnwrap(b, content, ar)
+	p.add("gobind.assign "+b.Head+" VAL "+tl.Term(), builtTokens, caseID, "C19/corr-assign")
+	fits := c19IntsFit(b.G, b.T, false, tl, false)
+	switch {
+	case strings.HasPrefix(builtTokens, "panic("):
+		c.Fail("C19/build-panics", core.Replay{Kind: "oracle", Case: caseID, Impl: builtTokens, Expected: "built or refused"})
+	case builtTokens == "refused" && fits:
+		c.Fail("C19/build-refused", core.Replay{Kind: "oracle", Case: caseID, Impl: "refused", Expected: "built: the value conforms and every integer fits its Go kind"})
+	case builtTokens != "refused" && !fits:
+		c.Fail("C19/narrow-int-overflow-stored-silently", core.Replay{Kind: "oracle", Case: caseID, Impl: builtTokens, Expected: "refused: an integer does not fit its Go kind"})
+	case builtTokens != "refused":
+		// wrap of what was built shows exactly what was assembled
+		ptr := reflect.New(b.RT)
+		ptr.Elem().Set(built)
+		got := "wrap-panic"
+		_, panicked, _ := core.Catch(func() error { got = readView(bindnode.Wrap(ptr.Interface(), b.ST)); return nil })
+		if panicked || got != tl.Term() {
+			c.Fail("C19/wrap-of-built-differs", core.Replay{Kind: "oracle", Case: caseID, Impl: got, Expected: tl.Term(), Detail: "Wrap(Unwrap(build(typed value))) read through the node API"})
+		}
+		c.Dist("build:accepted")
+	default:
+		c.Dist("build:refused-integer-does-not-fit")
+	}
+}
+
+func truncateBytes(b []byte, n int) []byte {
+	if len(b) > n {
+		return b[:n]
+	}
+	return b
+}
+
+// c19GenIntHeavy: a struct of integer-bearing fields (GenSchema's trees are string-heavy): ints, lists and maps of ints
+// (nullable or not), int-represented enums with representation ints around the int8 / uint8 / int16 boundaries, in optional,
+// nullable and optional-nullable fields.
+func c19GenIntHeavy(r *core.Rand) *core.SType {
+	names := []string{"a", "b", "c", "x", "y", "id", "val"}
+	var sb strings.Builder
+	sb.WriteString("struct " + []string{"map", "tuple", "listpairs"}[r.Intn(3)])
+	n := 1 + r.Intn(5)
+	for i := 0; i < n; i++ {
+		flags := ""
+		if i >= n-2 && r.Chance(1, 3) {
+			flags += "o"
+		}
+		if r.Chance(1, 4) {
+			flags += "n"
+		}
+		h := fmt.Sprintf("%x", names[i])
+		sb.WriteString(" f" + flags + ":" + h + ":" + h + " ")
+		switch r.Intn(7) {
+		case 0, 1:
+			sb.WriteString("int")
+		case 2:
+			sb.WriteString([]string{"list int", "list? int"}[r.Intn(2)])
+		case 3:
+			sb.WriteString([]string{"map int", "map? int"}[r.Intn(2)])
+		case 4:
+			sb.WriteString("list map int")
+		default:
+			pool := []int64{0, 1, 2, 127, 128, 255, 256, -1, -128, -129, 32767, 32768, 65535, 7}
+			sb.WriteString("enum int")
+			for j, k := range r.Perm(len(pool))[:1+r.Intn(3)] {
+				nm := fmt.Sprintf("%x", []string{"A", "B", "C"}[j])
+				sb.WriteString(fmt.Sprintf(" e:%s:%s:%d", nm, nm, pool[k]))
+			}
+			sb.WriteString(" )")
+		}
+	}
+	sb.WriteString(" )")
+	t, _, err := core.ParseSType(strings.Fields(sb.String()))
+	if err != nil {
+		panic(err)
+	}
+	return t
+}
+
+func c19BindSection(c *core.Ctx) error {
+	r := c.Rand.Fork()
+	var p c19Pending
+	// known-finding witnesses (hand-declared Go types; see known_findings.json)
+	c19BindWitnesses(c)
+	for _, line := range c19Directed {
+		if err := c19RunCase(c, line, &p); err != nil {
+			return fmt.Errorf("directed case %q: %w", line, err)
+		}
+		c.Dist("directed:repaired-deviations-and-boundaries")
+	}
+	nTypes := c.Pick(1200, 40000)
+	for i := 0; i < nTypes; i++ {
+		t := core.GenSchema(r, c19SchemaCfg)
+		if i%3 == 2 {
+			t = c19GenIntHeavy(r)
+		}
+		b, err := newC19Bind(t, nil)
+		if err != nil {
+			return err
+		}
+		p.add("gobind.compatible "+b.Head, "true", "c19.bind "+b.Head+" VAL -", "C19/corr-compatible")
+		kinds := map[string]bool{}
+		b.G.GoKinds(kinds)
+		for k := range kinds {
+			c.Dist("gokind:" + k)
+		}
+		strat := map[string]bool{}
+		t.Strategies(strat)
+		for k := range strat {
+			c.Dist("strategy:" + k)
+		}
+		for k := 0; k < 3; k++ {
+			stats := core.GoValStats{}
+			pv := reflect.New(b.RT)
+			core.FillGo(r, pv.Elem(), b.G, b.T, false, false, r.Chance(1, 10), stats)
+			for s, n := range stats {
+				for ; n > 0; n-- {
+					c.Dist("goval:" + s)
+				}
+			}
+			c19CheckGoValue(c, b, pv, r, &p)
+			if i < 2 && k == 0 {
+				c.Sample(truncateStr("c19.bind "+b.Head+" VAL "+core.GoValTokens(pv.Elem(), b.G, false), 600))
+			}
+		}
+		if i%4 == 0 {
+			// a Go value that is NOT an inhabitant (a union struct without member, a key without value, an enum integer no
+			// member has): outside the property's quantifier; the model must find it unreadable where the implementation does
+			pv := reflect.New(b.RT)
+			core.FillGo(r, pv.Elem(), b.G, b.T, false, false, false, core.GoValStats{})
+			if what := core.BreakGo(r, pv.Elem(), b.G, b.T, false); what != "" {
+				c19CheckGoValue(c, b, pv, r, &p)
+				c.Dist("non-inhabitant:" + what)
+			}
+		}
+		for k := 0; k < 2; k++ {
+			tl := core.GenInhabitant(t, r, c19SchemaCfg, false)
+			c19CheckTypedValue(c, b, tl, r, &p)
+		}
+		if len(p.lines) > 4000 {
+			if err := p.flush(c); err != nil {
+				return err
+			}
+		}
+	}
+	return p.flush(c)
+}
+
+// c19Directed: inputs of deviations that were found by this check and repaired in the library (f5ad5bb: a Go uint above
+// MaxInt64 was unreadable; 7093040: an enum representation int was stored into a narrower Go integer without a width check),
+// plus boundary bindings; they run through the ordinary checks, so a recurrence is an ordinary violation.
+var c19Directed = []string{
+	"c19.bind struct n:58 uint ) SCHEMA struct map f:58:58 int ) VAL ( i9223372036854775808 )",
+	"c19.bind struct n:58 ptr uint n:59 slice uint ) SCHEMA struct tuple fn:58:58 int f:59:59 list int ) VAL ( & i18446744073709551615 [ i0 i9223372036854775807 i9223372036854775808 ] )",
+	"c19.build struct n:58 uint ) SCHEMA struct map f:58:58 int ) VAL { s58 i18446744073709551615 }",
+	"c19.build struct n:45 i8 ) SCHEMA struct map f:45:45 enum int e:41:41:300 e:42:42:1 ) ) VAL { s45 s41 }",
+	"c19.build struct n:45 i8 ) SCHEMA struct map f:45:45 enum int e:41:41:300 e:42:42:1 ) ) VAL { s45 s42 }",
+	"c19.build struct n:45 u8 ) SCHEMA struct map f:45:45 enum int e:41:41:256 e:42:42:255 e:43:43:-1 ) ) VAL { s45 s41 }",
+	"c19.build struct n:45 u8 ) SCHEMA struct map f:45:45 enum int e:41:41:256 e:42:42:255 e:43:43:-1 ) ) VAL { s45 s43 }",
+	"c19.build struct n:45 ptr i16 ) SCHEMA struct listpairs fo:45:45 enum int e:41:41:32768 e:42:42:-32768 ) ) VAL { s45 s41 }",
+	"c19.bind struct n:45 u8 ) SCHEMA struct map f:45:45 enum int e:41:41:256 e:42:42:255 e:43:43:-1 ) ) VAL ( i255 )",
+}
+
+// c19RunCase executes one case line of this section (its correspondence lines are left pending in p).
+func c19RunCase(c *core.Ctx, line string, p *c19Pending) error {
+	toks := strings.Fields(line)
+	if len(toks) == 0 {
+		return fmt.Errorf("empty case line")
+	}
+	g, rest, err := core.ParseGTy(toks[1:])
+	if err != nil {
+		return err
+	}
+	if len(rest) == 0 || rest[0] != "SCHEMA" {
+		return fmt.Errorf("case line: SCHEMA expected after the go type")
+	}
+	t, rest, err := core.ParseSType(rest[1:])
+	if err != nil {
+		return err
+	}
+	if len(rest) == 0 || rest[0] != "VAL" {
+		return fmt.Errorf("case line: VAL expected after the schema")
+	}
+	b, err := newC19Bind(t, g)
+	if err != nil {
+		return err
+	}
+	switch toks[0] {
+	case "c19.bind":
+		pv := reflect.New(b.RT)
+		r2, err := core.ParseGoVal(rest[1:], pv.Elem(), b.G)
+		if err != nil {
+			return err
+		}
+		if len(r2) != 0 {
+			return fmt.Errorf("case line: trailing tokens after the go value")
+		}
+		c19CheckGoValue(c, b, pv, nil, p)
+	case "c19.build":
+		tl, r2, err := core.ParseTerm(rest[1:])
+		if err != nil {
+			return err
+		}
+		if len(r2) != 0 {
+			return fmt.Errorf("case line: trailing tokens after the typed value")
+		}
+		c19CheckTypedValue(c, b, tl, nil, p)
+	default:
+		return fmt.Errorf("unknown case kind %q", toks[0])
+	}
+	return nil
+}
+
+// c19BindReplay re-executes one case line of this section.
+func c19BindReplay(c *core.Ctx, line string) error {
+	var p c19Pending
+	if err := c19RunCase(c, line, &p); err != nil {
+		return err
+	}
+	return p.flush(c)
+}
+
+// --- witnesses of the known findings of this section (hand-declared Go types) ---------------------------
+
+type c19WOptSlice struct{ L []string }
+type c19WU64 struct{ X uint64 }
+type c19WKinded struct{ Int *uint64 }
+
+var c19WitnessTS = schema.MustTypeSystem(
+	schema.SpawnInt("Int"), schema.SpawnString("String"),
+	schema.SpawnList("LS", "String", false),
+	schema.SpawnStruct("WUint", []schema.StructField{schema.SpawnStructField("X", "Int", false, false)}, schema.SpawnStructRepresentationMap(nil)),
+	schema.SpawnStruct("WOptSlice", []schema.StructField{schema.SpawnStructField("L", "LS", true, false)}, schema.SpawnStructRepresentationMap(nil)),
+	schema.SpawnUnion("WKinded", []schema.TypeName{"Int"}, schema.SpawnUnionRepresentationKinded(map[datamodel.Kind]schema.TypeName{datamodel.Kind_Int: "Int"})),
+	schema.SpawnStruct("WNulSlice", []schema.StructField{schema.SpawnStructField("L", "LS", false, true)}, schema.SpawnStructRepresentationMap(nil)),
+)
+
+func c19BindWitnesses(c *core.Ctx) {
+	// dag-json cannot marshal an unsigned integer above MaxInt64
+	{
+		v := c19WU64{X: 1 << 63}
+		_, err := ipld.Marshal(dagjson.Encode, &v, c19WitnessTS.TypeByName("WUint"))
+		c.KnownWitness("C19/dagjson-unsigned-above-int64", err != nil, "ipld.Marshal(dagjson.Encode, &struct{X uint64}{1<<63}, …) fails: "+fmt.Sprint(err))
+	}
+	// an unsigned integer above MaxInt64 as the member of a kinded union: the representation node is not a UintNode
+	{
+		x := uint64(1) << 63
+		v := c19WKinded{Int: &x}
+		_, err := ipld.Marshal(dagcbor.Encode, &v, c19WitnessTS.TypeByName("WKinded"))
+		c.KnownWitness("C19/kinded-union-unsigned-above-int64-marshal-fails", err != nil, "ipld.Marshal(dagcbor.Encode, &struct{Int *uint64}{&(1<<63)}, kinded union {Int int}) fails: "+fmt.Sprint(err))
+	}
+	// optional / nullable field bound to a plain (nilable) slice: an empty list becomes absent / null
+	{
+		v := c19WOptSlice{L: []string{}}
+		st := c19WitnessTS.TypeByName("WOptSlice")
+		var out c19WOptSlice
+		after := "?"
+		err, panicked, _ := core.Catch(func() error {
+			enc, err := ipld.Marshal(dagcbor.Encode, &v, st)
+			if err != nil {
+				return err
+			}
+			if _, err := ipld.Unmarshal(enc, dagcbor.Decode, &out, st); err != nil {
+				return err
+			}
+			after = readView(bindnode.Wrap(&out, st))
+			return nil
+		})
+		c.KnownWitness("C19/nilable-slot-empty-list-becomes-absent", err == nil && !panicked && after != "{ s4c [ ] }", "struct{L []string}{L: []string{}} with L optional: after Marshal/Unmarshal the value reads "+after)
+	}
 }
